@@ -3,6 +3,7 @@ import ast
 import json
 import os
 import sys
+import time
 
 from common import VERIF, CorrResult, Failure, run_check, use_repo
 import tifawrap_common as tw
@@ -143,7 +144,8 @@ def correspond(rng, tier, driver):
     res.rule = ("(1) wrapper/cache histories: 2-4 programs (generated CS1 programs, arbitrary-grammar programs, mutated "
                 "corpus programs, non-parsing text, a RecursionError program, programs whose visit raises an INJECTED "
                 "exception class incl. a non-Exception BaseException and one whose str() raises), 3-9 tifa_analysis calls "
-                "with repeats on one report, line offset 0/3/11, default or custom main file name; real = success flag, "
+                "with repeats on one report (pedal's MAIN_REPORT, a Report() of our own with the submission, or a bare Report() passed as "
+                "report=), line offset 0/3/11, default or custom main file name; real = success flag, "
                 "issue count, issue lines, total and system feedback attached so far, or the escaping exception, per "
                 "call; model = Pedal.TifaWrapper.tifaAnalysis folded over the same calls with each program's inner "
                 "outcome taken from a separate reference analysis; (2) every ast node class of the running Python: real "
@@ -195,14 +197,17 @@ def correspond(rng, tier, driver):
                 calls = [0, 1, 0] + calls       # analyse A, analyse B, analyse A again
             offset = rng.choice([0, 0, 3, 11])
             filename = rng.choice([None, None, "student_code.py", "sub/dir/prog.py"])
-            real = tw.observe_history(codes, calls, offset, filename)
+            own = rng.choice([None, None, "contextualized", "no-submission"])
+            if own == "no-submission":
+                offset, filename = 0, None
+            real = tw.observe_history(codes, calls, offset, filename, own_report=own)
             req = ["wrap", str(offset), str(k)]
             for j, toks in enumerate(toks_per_code):
                 req += ["c%d" % j] + toks
             req += [str(len(calls))] + ["c%d" % i for i in calls]
             lines.append(" ".join(req))
             reals.append(real)
-            metas.append({"codes": codes, "calls": calls, "offset": offset, "filename": filename})
+            metas.append({"codes": codes, "calls": calls, "offset": offset, "filename": filename, "own_report": own})
     answers = driver.ask(lines)
     for real, ans, meta, req in zip(reals, answers, metas, lines):
         res.evaluations += 1
@@ -220,6 +225,7 @@ def correspond(rng, tier, driver):
         res.count("calls:%d" % len(meta["calls"]))
         res.count("offset:%d" % meta["offset"])
         res.count("file:%s" % (meta["filename"] or "default"))
+        res.count("report:%s" % (meta["own_report"] or "MAIN_REPORT"))
         res.count("failing-calls:%d" % min(fails, 3))
         if len(set(meta["calls"])) < len(meta["calls"]) and fails:
             res.nontrivial.add(req)
@@ -327,7 +333,8 @@ def search(rng, tier, broken, corr):
                     "arbitrary-grammar programs over every statement/expression/pattern kind, the repository's own .py "
                     "files, AST-mutated/recombined corpus programs, CR/CRLF/FF/U+2028 variants, non-ASCII identifiers, "
                     "non-default main file, bare tifa_analysis(), section histories, A-B-A histories",
-            "evaluations": 0, "distinct_nontrivial": 0, "samples": [], "skipped": {}}
+            "evaluations": 0, "distinct_nontrivial": 0, "samples": [], "skipped": {}, "families": {}, "family_seconds": {},
+            "feedback_on_MAIN_REPORT_although_another_report_was_passed": 0}
     first = {}
     nontrivial = set()
     mult = 2 if tier == "quick" else 30
@@ -340,7 +347,15 @@ def search(rng, tier, broken, corr):
     def skip(reason):
         info["skipped"][reason] = info["skipped"].get(reason, 0) + 1
 
-    def consider(code, must, origin, **kw):
+    def consider(code, must, origin, det=True, **kw):
+        t0 = time.time()
+        try:
+            return consider_(code, must, origin, det, **kw)
+        finally:
+            fam = "/".join(origin.split(" ")[0].split("/")[:2]) if origin.startswith("boundary/") else origin.split(" ")[0]
+            info["family_seconds"][fam] = round(info["family_seconds"].get(fam, 0) + time.time() - t0, 3)
+
+    def consider_(code, must, origin, det=True, **kw):
         try:
             ast.parse(code)
             parses = True
@@ -348,11 +363,17 @@ def search(rng, tier, broken, corr):
             parses = False
         obs = tw.observe(code, **kw)
         info["evaluations"] += 1
+        fam = "/".join(origin.split(" ")[0].split("/")[:2]) if origin.startswith("boundary/") else origin.split(" ")[0]
+        info["families"][fam] = info["families"].get(fam, 0) + 1
         if "setup_error" in obs:
             skip("report setup failed: " + obs["setup_error"])
             return
-        det = tw.fresh_issues(code, kw.get("filename")) if not kw.get("offset") else None
+        if must and not parses:
+            skip("must-complete program that does not parse (generator slip): " + fam)
+        det = tw.fresh_issues(code, kw.get("filename")) if (det and not kw.get("offset")) else None
         c0 = (obs.get("calls") or [{}])[0]
+        if c0.get("on_main_report_instead"):
+            info["feedback_on_MAIN_REPORT_although_another_report_was_passed"] += c0["on_main_report_instead"]
         if c0.get("issues") and len(c0["issues"]) >= 2:
             nontrivial.add(hash(code))
         for sig, what in tw.oracle(code, obs, must and parses, det, offset=kw.get("offset", 0)):
@@ -364,8 +385,15 @@ def search(rng, tier, broken, corr):
         consider(case["code"], case.get("must_complete", False), "corpus")
     for code in SPECIAL:
         consider(code, False, "special")
-    for code in tw.state_leak_programs():
-        consider(code, False, "state-leak probe")
+    for code in tw.state_leak_programs(full=(tier == "thorough")):
+        consider(code, False, "state-leak probe", repeats=0)
+    # boundary families: every position / count around every statically known size (see tifawrap_common)
+    for individually in ((False, True) if tier == "thorough" else (False,)):
+        b_must, b_star = tw.boundary_programs(progs, individually, full=(tier == "thorough"))
+        for origin, code in b_must:
+            consider(code, True, "boundary/" + origin, det=False, repeats=1)
+        for origin, code in b_star:
+            consider(code, False, "boundary/" + origin, det=False, repeats=1)
     for t, n, code in progs:
         if code is None:
             skip("table row without a call (third-party module: outside the subset)" if t.startswith("extmodule:")
@@ -393,8 +421,14 @@ def search(rng, tier, broken, corr):
         consider(tw.line_terminator_variants(rng, base), False, "line-terminators")
     for i in range(60 * mult):
         code = tw.gen_intro(rng) if i % 2 else tw.gen_grammar(rng)
-        consider(code, False, "variant", filename=rng.choice(["student_code.py", "deep/er/main.py"]), bare=bool(i % 3),
-                 offset=rng.choice([0, 0, 5]))
+        own = tw.OWN_REPORT_MODES[i % 3]
+        if own == "no-submission":
+            consider(code, False, "variant", own_report=own)
+        else:
+            consider(code, False, "variant", filename=rng.choice(["student_code.py", "deep/er/main.py"]), bare=bool(i % 4),
+                     offset=rng.choice([0, 0, 5]), own_report=own)
+    for i, code in enumerate(tw.CS1_PROGRAMS):          # must-complete programs on a report that is not MAIN_REPORT
+        consider(code, True, "cs1-program (own report)", own_report=tw.OWN_REPORT_MODES[1 + i % 2])
     chosen = files if tier == "thorough" else rng.sample(files, min(40, len(files)))
     for path, code in chosen:
         consider(code, False, "repo-file " + path, repeats=1)
@@ -404,8 +438,9 @@ def search(rng, tier, broken, corr):
         a, b = tw.gen_intro(rng), (tw.gen_grammar(rng) if i % 2 else tw.gen_intro(rng))
         if a == b:
             continue
-        recs = tw.observe_history([a, b], [0, 1, 0, 1, 0])
+        recs = tw.observe_history([a, b], [0, 1, 0, 1, 0], own_report=tw.OWN_REPORT_MODES[i % 3])
         info["evaluations"] += 1
+        info["families"]["history"] = info["families"].get("history", 0) + 1
         if any("raised_class" in r for r in recs):
             first.setdefault(json.dumps({"kind": "raised", "error": [r for r in recs if "raised_class" in r][0]["raised_class"]}, sort_keys=True),
                              ({"kind": "raised", "error": [r for r in recs if "raised_class" in r][0]["raised_class"]},
@@ -447,6 +482,8 @@ def search(rng, tier, broken, corr):
                          "seed and tier to reproduce, or look for attribute/element stores on shared types")
         failures.append(Failure(sig, what + " | from: " + origin, rp))
     info["distinct_nontrivial"] = len(nontrivial)
+    if os.environ.get("C18_PROFILE"):
+        print("C18_PROFILE", json.dumps(info["family_seconds"]), file=sys.stderr)
     info["samples"] = [f.replay["code"][:300] for f in failures][:3]
     return failures, info
 
@@ -493,8 +530,9 @@ def section_history(rng, first, info):
 
 
 def shrink_lines(code, sig, origin, kw):
-    """Greedy line-wise shrinking that keeps the signature."""
+    """Line-wise delta debugging (blocks of half, a quarter, ... one line) that keeps the signature."""
     must = sig.get("kind") == "analysis-failed"
+    nondet = sig.get("kind") == "nondeterministic"
 
     def still(c):
         try:
@@ -502,24 +540,32 @@ def shrink_lines(code, sig, origin, kw):
         except Exception:
             if must:
                 return False
+        if nondet:
+            # a leak stays in this process: give the probe attribute names nothing has written yet
+            c = tw.fresh_leak_names(c)
         obs = tw.observe(c, **kw)
-        det = tw.fresh_issues(c, kw.get("filename")) if sig.get("kind") == "nondeterministic" else None
+        det = tw.fresh_issues(c, kw.get("filename")) if nondet else None
         return any(s == sig for s, _ in tw.oracle(c, obs, must, det, offset=kw.get("offset", 0)))
     sep = "\n"
     lines = code.split(sep)
-    if len(lines) > 400 or not still(code):
+    if len(lines) > 1500 or not still(code):
         return code
-    changed = True
     steps = 0
-    while changed and steps < 300:
+    size = max(len(lines) // 2, 1)
+    while steps < 600:
         changed = False
-        for i in range(len(lines)):
+        i = 0
+        while i < len(lines) and steps < 600:
+            cand = lines[:i] + lines[i + size:]
             steps += 1
-            cand = lines[:i] + lines[i + 1:]
             if cand and still(sep.join(cand)):
                 lines = cand
                 changed = True
-                break
+            else:
+                i += size
+        if size == 1 and not changed:
+            break
+        size = max(size // 2, 1) if not changed or size > 1 else 1
     return sep.join(lines)
 
 
